@@ -32,8 +32,8 @@ template <bool Dyn> struct sl_traits_iter : cc::split_list::traits {
     struct ordered_list_traits : cc::iterable_list::traits { typedef Less less; };
 };
 template <class S> void split_probes(Ctx& c, S& s) { auto const& st = s.statistics(); c.probe("split_bucket_inits", (long)st.m_nInitBucketRecursive.get() + (long)st.m_nInitBucketContention.get()); c.probe("split_buckets_created", (long)st.m_nBucketCount.get()); c.probe("split_bucket_init_contention", (long)st.m_nInitBucketContention.get()); }
-template <class GC, class S, class CFG> struct HSet : SetA<GC, S, CFG> { explicit HSet(const Program& p) { this->s.reset(new S((size_t)p.knob("item_count", 2), (size_t)p.knob("load_factor", 1))); } void probes(Ctx& c) { split_probes(c, *this->s); } };
-template <class GC, class S, class CFG> struct HMap : MapA<GC, S, CFG> { explicit HMap(const Program& p) { this->s.reset(new S((size_t)p.knob("item_count", 2), (size_t)p.knob("load_factor", 1))); } void probes(Ctx& c) { split_probes(c, *this->s); } };
+template <class GC, class S, class CFG> struct HSet : SetA<GC, S, CFG> { explicit HSet(const Program& p) { this->s.reset(new S((size_t)p.knob("item_count", 2), (size_t)p.knob("load_factor", 1))); } bool consistent(std::string& why) { std::vector<long> ks; this->traverse(ks); return split_order_ok(ks, why); } void probes(Ctx& c) { split_probes(c, *this->s); } };
+template <class GC, class S, class CFG> struct HMap : MapA<GC, S, CFG> { explicit HMap(const Program& p) { this->s.reset(new S((size_t)p.knob("item_count", 2), (size_t)p.knob("load_factor", 1))); } bool consistent(std::string& why) { std::vector<long> ks; this->traverse(ks); return split_order_ok(ks, why); } void probes(Ctx& c) { split_probes(c, *this->s); } };
 typedef Cfg<CAPS_FULL, false, false> C_full; typedef Cfg<CAPS_FULL, true, false> C_repl; typedef Cfg<CAPS_FULL, false, false, true, true, true> C_lazy_rcu;
 // more keys and insert-heavy programs so that bucket initialisation and table growth happen during the concurrent phase
 void gen(Rng& r, Program& p, int tier, const std::string&) { GenCfg g; g.min_hazards = 12; g.hash_modes = 4; g.nkeys_hot = 5; g.nkeys_cold = 3; g.max_ops = 6; gen_program(r, p, tier, g); p.set("item_count", r.pick({2, 2, 4})); p.set("load_factor", 1); }  // a bucket table smaller than 2 is outside the contract (the list starts with 2 logical buckets; asserted in debug builds)
